@@ -46,6 +46,10 @@ def check_view(rec, view, parent, idx, what, w=None, light=False):
             eq = kit.bytes_equal(np.ascontiguousarray(got), np.ascontiguousarray(ref))
         if not rec.check(eq, "C14/view/attribute-mismatch", lambda: "%s: attribute %s differs from parent rows %r" % (what, a, tuple(idx)[:20]), w):
             good = False
+    if len(idx):
+        # "observed" is a statement about all of the view's rows, whatever type the view object has
+        want_obs = bool(np.all(np.asarray(parent.observation_mask)[ii]))
+        rec.check(bool(view.is_observed) == want_obs, "C14/view/attribute-mismatch", lambda: "%s: is_observed=%r for a view whose rows have mask %r" % (what, bool(view.is_observed), np.asarray(parent.observation_mask)[ii].tolist()[:12]), w)
     if not light:
         rec.check(view.size == len(idx), "C14/view/size", "%s: size %d for %d rows" % (what, view.size, len(idx)), w)
         pn = parent.plate_names[np.asarray(view.selection_vector)]
